@@ -10,6 +10,7 @@ import (
 	"testing"
 	"time"
 
+	"github.com/ovn-org/libovsdb/model"
 	"github.com/ovn-org/libovsdb/ovsdb"
 	"github.com/ovn-org/libovsdb/server"
 	"pgregory.net/rapid"
@@ -124,12 +125,16 @@ func genC17Program(t *rapid.T, client int, uuidBase *int, children []string) []*
 	return out
 }
 
-func c17World(tb testing.TB) *kit.World {
+func c17World(tb testing.TB) *kit.World { return c17WorldWith(tb, nil) }
+
+// c17WorldWith: the database model (the server's as well as the clients') also declares the
+// given client indexes.
+func c17WorldWith(tb testing.TB, indexes map[string][]model.ClientIndex) *kit.World {
 	s, err := parseSchemaJSON([]byte(c17Schema))
 	if err != nil {
 		tb.Fatalf("schema: %v", err)
 	}
-	w, err := kit.BuildWorld(s, nil)
+	w, err := kit.BuildWorld(s, indexes)
 	if err != nil {
 		tb.Fatalf("world: %v", err)
 	}
@@ -148,6 +153,14 @@ func TestC17Aged(t *testing.T) { c17Test(t, true) }
 
 func c17Test(t *testing.T, aged bool) {
 	w := c17World(t)
+	if aged {
+		// this variant's database model declares client indexes over the columns of the schema
+		// indexes (and one more): the keys stay unique all the same
+		w = c17WorldWith(t, map[string][]model.ClientIndex{
+			"Item":    {{Columns: []model.ColumnKey{{Column: "key"}}}, {Columns: []model.ColumnKey{{Column: "owner"}}}},
+			"Counter": {{Columns: []model.ColumnKey{{Column: "name"}}}},
+		})
+	}
 	s := w.S
 	rapid.Check(t, func(t *rapid.T) {
 		kit.PinUUIDs(1)
